@@ -299,6 +299,7 @@ package idl
 //@ invariant Type : [kind C07] self.Kind <= TypeAlias
 //@ invariant Type : [elem C07] (self.Kind == TypeArray || self.Kind == TypeMap || self.Kind == TypeMaybe) ==> self.ElementType != nil
 //@ invariant Type : [fields C07] self.Kind == TypeStruct ==> (forall j int :: 0 <= j && j < len(self.Fields) ==> self.Fields[j].Type != nil)
+//@ invariant Type : [leaf C05 C07] !(self.Kind == TypeArray || self.Kind == TypeMap || self.Kind == TypeMaybe) ==> self.ElementType == nil
 //@ invariant Alias : [type C07] self.Type != nil
 //@ invariant Method : [inout C07] self.In != nil && self.Out != nil
 //@ invariant IDL : [members C07] (forall i int :: 0 <= i && i < len(self.Aliases) ==> self.Aliases[i] != nil) && (forall i int :: 0 <= i && i < len(self.Methods) ==> self.Methods[i] != nil) && (forall i int :: 0 <= i && i < len(self.Errors) ==> self.Errors[i] != nil)
